@@ -177,40 +177,46 @@ def _impl_chunk(lines):
     signal.signal(signal.SIGALRM, _alarm)
     quick_ones = []
     for idx, line in enumerate(lines):
-        signal.alarm(int(os.environ.get("VERIF_CASE_TIMEOUT", "60")))
-        _t = time.time()
         try:
+            signal.alarm(int(os.environ.get("VERIF_CASE_TIMEOUT", "60")))
+            _t = time.time()
             try:
-                res = impl.evaluate(line)
-            except Hang:
-                res = "hang"
-            out.append(res)
-        except Hang:                       # the alarm went off between the evaluation and the bookkeeping
+                try:
+                    res = impl.evaluate(line)
+                except Hang:
+                    res = "hang"
+                out.append(res)
+            except Hang:                       # the alarm went off between the evaluation and the bookkeeping
+                if len(out) <= idx:
+                    out.append("hang")
+            except BaseException as e:
+                tb = traceback.extract_tb(e.__traceback__)
+                if line.startswith("prop.") and tb and os.path.abspath(tb[-1].filename).startswith(os.path.abspath(REPO) + os.sep) \
+                        and isinstance(e, Exception):
+                    # a property evaluation that the code under test ends with an exception nobody expected there: on the unchanged
+                    # tree no such line exists, so this is what a changed tree does to an input the property covers
+                    out.append(f"FAIL the code under test raised {type(e).__name__}: {str(e)[:200]} at "
+                               f"{os.path.relpath(tb[-1].filename, REPO)}:{tb[-1].lineno} where the evaluation expected a result")
+                elif isinstance(e, Exception) and not os.environ.get("VERIF_STRICT_HARNESS"):
+                    # the adapter or the evaluation itself broke down on what the code under test handed back (None instead of
+                    # bytes, a header that cannot be parsed, an oracle drawn from more often than any valid run does).  On the unchanged
+                    # tree this never happens (the sweeps would show it as an alarm); on a changed tree it is a finding, not a reason
+                    # to stop: property lines fail, correspondence lines disagree with the model.
+                    where = tb[-1] if tb else None
+                    msg = (f"{type(e).__name__}: {str(e)[:160]} at {os.path.basename(where.filename)}:{where.lineno}" if where
+                           else f"{type(e).__name__}: {str(e)[:160]}").replace("\n", " ")
+                    out.append(("FAIL the evaluation broke down on what the code under test returned: " if line.startswith("prop.")
+                                else "err EvaluationBrokeDown ") + msg)
+                else:                   # not an implementation outcome
+                    out.append("harness-error " + type(e).__name__ + " " + str(e).replace("\n", " ")[:300]
+                               + " @ " + traceback.format_exc().strip().split("\n")[-3].strip()[:200])
+            finally:
+                signal.alarm(0)
+        except Hang:      # the signal was delivered late (it waits for a long C call to return): the line took longer than the limit
             if len(out) <= idx:
                 out.append("hang")
-        except BaseException as e:
-            tb = traceback.extract_tb(e.__traceback__)
-            if line.startswith("prop.") and tb and os.path.abspath(tb[-1].filename).startswith(os.path.abspath(REPO) + os.sep) \
-                    and isinstance(e, Exception):
-                # a property evaluation that the code under test ends with an exception nobody expected there: on the unchanged
-                # tree no such line exists, so this is what a changed tree does to an input the property covers
-                out.append(f"FAIL the code under test raised {type(e).__name__}: {str(e)[:200]} at "
-                           f"{os.path.relpath(tb[-1].filename, REPO)}:{tb[-1].lineno} where the evaluation expected a result")
-            elif isinstance(e, Exception) and not os.environ.get("VERIF_STRICT_HARNESS"):
-                # the adapter or the evaluation itself broke down on what the code under test handed back (None instead of
-                # bytes, a header that cannot be parsed, an oracle drawn from more often than any valid run does).  On the unchanged
-                # tree this never happens (the sweeps would show it as an alarm); on a changed tree it is a finding, not a reason
-                # to stop: property lines fail, correspondence lines disagree with the model.
-                where = tb[-1] if tb else None
-                msg = (f"{type(e).__name__}: {str(e)[:160]} at {os.path.basename(where.filename)}:{where.lineno}" if where
-                       else f"{type(e).__name__}: {str(e)[:160]}").replace("\n", " ")
-                out.append(("FAIL the evaluation broke down on what the code under test returned: " if line.startswith("prop.")
-                            else "err EvaluationBrokeDown ") + msg)
-            else:                   # not an implementation outcome
-                out.append("harness-error " + type(e).__name__ + " " + str(e).replace("\n", " ")[:300]
-                           + " @ " + traceback.format_exc().strip().split("\n")[-3].strip()[:200])
-        finally:
-            signal.alarm(0)
+            else:
+                out[idx] = "hang"
         if time.time() - _t < 0.3 and not line.startswith(HEAVY_OPS) and zlib.crc32(line.encode()) % 8 == 0:
             quick_ones.append(idx)
     # every operation line is self-contained (fresh objects, oracle inputs instead of randomness), so its result is a function
